@@ -131,11 +131,27 @@ type Op struct {
 	Make     func(e *Env, slot int) func() string
 }
 
+// errStr renders an error completely: message and, for the library's structured errors, the
+// context (%+v names the function and the offending token) — an error value that shows another
+// goroutine's token is a wrong result too.
 func errStr(err error) string {
 	if err == nil {
 		return "nil"
 	}
-	return err.Error()
+	return err.Error() + " " + fmt.Sprintf("%+v", err)
+}
+
+// inputs rejected only for a metric name outside the decoder's level, one per thread slot (the
+// deferred unsupported-metric error carries the token)
+var unsup3 = []string{
+	"CVSS:3.1/AV:A/AC:H/PR:L/UI:N/S:C/C:L/I:H/A:L/ZZ:N",
+	"CVSS:3.0/AV:N/AC:L/PR:N/UI:R/S:U/C:H/I:N/A:N/QQ:H/E:F",
+	"CVSS:3.1/Au:N/AV:P/AC:L/PR:H/UI:N/S:U/C:N/I:L/A:H",
+}
+var unsup2 = []string{
+	"AV:N/AC:L/Au:N/C:N/I:N/A:C/ZZ:N",
+	"AV:L/AC:H/Au:M/C:C/I:P/A:N/QQ:H",
+	"AV:A/AC:M/Au:S/C:P/I:C/A:P/E:POC/RL:TF/RC:UR/PR:N",
 }
 
 func export(rep interface {
@@ -165,6 +181,13 @@ var Ops = []Op{
 		return func() string {
 			m, err := v3.NewEnvironmental().Decode(bad3[slot%len(bad3)])
 			return fmt.Sprint(m == nil, errStr(err))
+		}
+	}},
+	{"v3 decode rejected for an unsupported metric", false, func(e *Env, slot int) func() string {
+		return func() string {
+			m, err := v3.NewEnvironmental().Decode(unsup3[slot%len(unsup3)])
+			m2, err2 := v3.NewBase().Decode(vec3[slot%len(vec3)]) // temporal and environmental names at the base decoder
+			return fmt.Sprint(m == nil, errStr(err), m2 == nil, errStr(err2))
 		}
 	}},
 	{"v3 Score", true, func(e *Env, slot int) func() string {
@@ -253,6 +276,13 @@ var Ops = []Op{
 		return func() string {
 			m, err := v2.NewEnvironmental().Decode(bad2[slot%len(bad2)])
 			return fmt.Sprint(m == nil, errStr(err))
+		}
+	}},
+	{"v2 decode rejected for an unsupported metric", false, func(e *Env, slot int) func() string {
+		return func() string {
+			m, err := v2.NewEnvironmental().Decode(unsup2[slot%len(unsup2)])
+			m2, err2 := v2.NewBase().Decode(vec2[slot%len(vec2)])
+			return fmt.Sprint(m == nil, errStr(err), m2 == nil, errStr(err2))
 		}
 	}},
 	{"v2 Score", true, func(e *Env, slot int) func() string {
